@@ -17,7 +17,7 @@ from props import C15
 
 ID = "C04"
 TRUSTED = [
-    "correspondence harness (harness/props/C04.py): computation of token-safe insertion points from the real lexer's raw token stream",
+    "correspondence harness (harness/props/C04.py, scan_streams.py, file_front.py): computation of token-safe insertion points from the real lexer's raw token stream",
     "translator/patterns.py (shipped header patterns -> Gen/Languages.lean)",
     "modelled, not verified: Pygments lexers - that inserted blank/comment lines change the code-token stream only by a line relabelling is the part checked by this run, not proved",
 ]
@@ -85,16 +85,29 @@ def safe_points(lang, code):
     return boundaries, trail
 
 
-def comment_for(lang, rnd, trailing=False):
+def comment_for(lang, rnd, trailing=False, pool=None):
     """comment texts; comment-ONLY lines may even start with the suppression marker: such a
     comment sits on no function's name line, so it must not change anything either"""
+    if pool and rnd.random() < 0.5:
+        # a text that makes the file look like another language to Pygments (scan_streams.lookalike_texts)
+        body = rnd.choice(pool)
+        if trailing and scan_streams.starts_with_marker(body):
+            body = "x " + body
+        return ("# " + body) if lang == "Python" else rnd.choice(["// " + body, "/* " + body + " */"])
+    if rnd.random() < FOREIGN_SHARE:
+        # texts in the syntax of many languages (sigils, brackets, quotes, foreign comment openers, rulers) and literals
+        # of the code under check (those that are new in the source with a high weight)
+        return scan_streams.foreign_comment(lang, rnd, trailing)
     if lang == "Python":
         return rnd.choice(["# note", "# def x():", "#(", "#  later: nocl", "# {"] + ([] if trailing else ["# nocl", "#NOCL"]))
     c = rnd.choice(["// note", "/* block */", "// f() {", "/* { */", "// }", "/* int g() { */", "// x nocl"] + ([] if trailing else ["// nocl", "/* nocl */", "//NoCl"]))
     return c
 
 
-def make_variant(lang, code, rnd, boundaries, trail):
+FOREIGN_SHARE = 0.35
+
+
+def make_variant(lang, code, rnd, boundaries, trail, pool=None):
     """-> (variant text, edits) ; edits = list of (kind, line, text)"""
     lines = code.split("\n")
     edits = []
@@ -104,11 +117,11 @@ def make_variant(lang, code, rnd, boundaries, trail):
         if r < 0.3 and boundaries:
             edits.append(("blank", rnd.choice(boundaries), rnd.choice(["", "   ", "\t", "\x0c", " \x0b ", "\x1c", "\x85", "\u2028", "\xa0\u2003"])))
         elif r < 0.6 and boundaries:
-            edits.append(("comment", rnd.choice(boundaries), " " * rnd.choice([0, 2, 4, 8]) + comment_for(lang, rnd)))
+            edits.append(("comment", rnd.choice(boundaries), " " * rnd.choice([0, 2, 4, 8]) + comment_for(lang, rnd, False, pool)))
         elif r < 0.7 and boundaries and lang != "Python":
             edits.append(("block2", rnd.choice(boundaries), None))
         elif r < 0.9 and trail:
-            edits.append(("trail", rnd.choice(trail), " " * rnd.randint(1, 3) + comment_for(lang, rnd, True)))
+            edits.append(("trail", rnd.choice(trail), " " * rnd.randint(1, 3) + comment_for(lang, rnd, True, pool)))
         elif trail:
             edits.append(("trail", rnd.choice(trail), rnd.choice([" ", "  ", "\t", " \x0c", "\xa0"]) * rnd.randint(1, 3)))
     return apply_edits(code, edits), edits
@@ -264,6 +277,189 @@ def ladder_failures(ctx, dist=None, started=None):
     return len(jobs), nontrivial, fails[:6]
 
 
+# ---- observation through files: the file-name based front end (Scanner.scan_path) ------------------------------------
+
+def file_variants(ctx):
+    """canonical programs and their variants as FILES, named by any file name Pygments maps to the language (four in
+    five; half of those among the names another lexer claims too: `*.h`, `*.hh`, ...), a share with CR LF line ends
+    -> [case dict]"""
+    import file_front as ff
+    rnd = ctx.rng("c04files")
+    out = []
+    for (lang, code, _) in scan_streams.canonical(ctx, ctx.pick(12, 120), "c04files"):
+        b, t = safe_points(lang, code)
+        if not b and not t:
+            continue
+        name = ff.pick_name(lang, rnd, "m%d" % len(out), sr.EXT[lang], share=0.8)
+        nl = rnd.choice(["lf", "lf", "crlf"])
+        # for a name that several lexers claim: half of the comments from the texts that Pygments' content heuristics of
+        # a competing lexer rate above the resolved one
+        pool = scan_streams.lookalike_texts(name, ctx.rng("c04lookalike", os.path.splitext(name)[1])) or None
+        for _ in range(ctx.pick(3, 6)):
+            v, edits = make_variant(lang, code, rnd, b, t, pool)
+            if edits:
+                out.append({"language": lang, "name": name, "newline": nl, "code": code, "variant": v, "edits": edits})
+        # white space at the EDGES of the file only: blank / whitespace-only lines above the first and below the last line,
+        # trailing blanks (what an editor's clean-up or a merge leaves behind)
+        edits = [("blank", 0, rnd.choice(["", "", "  ", "\t"])) for _ in range(rnd.randint(1, 3))] if 0 in b else []
+        if b and b[-1] != 0 and rnd.random() < 0.5:
+            edits += [("blank", b[-1], rnd.choice(["", " "]))]
+        if t and rnd.random() < 0.5:
+            edits += [("trail", rnd.choice(t), rnd.choice([" ", "  ", "\t"]))]
+        if edits:
+            out.append({"language": lang, "name": name, "newline": nl, "code": code, "variant": apply_edits(code, edits), "edits": edits})
+    return out
+
+
+def file_failures(cases, workers=8):
+    """-> (variants, variants of files with functions, oracle failures); the cases are dealt out to `workers` trees"""
+    cases = list(cases)
+    chunks = [cases[i::workers] for i in range(workers) if cases[i::workers]]
+    n, nontrivial, fails = 0, 0, []
+    for (a, b, fs) in scan_streams.heavy_map(_file_chunk, chunks, workers):
+        n += a; nontrivial += b; fails += fs
+    fails.sort(key=lambda f: len(f["input"]["code"]) + 50 * len(f["input"]["edits"]))
+    return n, nontrivial, fails[:8]
+
+
+def _file_chunk(cases):
+    """original and variant of every case in two directories of ONE tree, one Scanner.scan_path over it; oracle: the
+    variant file is listed with the original file's functions, each line shifted by the lines inserted above it"""
+    import file_front as ff
+    fails, nontrivial = [], 0
+    with ff.Tree("c04files_") as tree:
+        for i, c in enumerate(cases):
+            c["o"] = os.path.join("o%04d" % i, c["name"]); c["v"] = os.path.join("v%04d" % i, c["name"])
+            tree.write(c["o"], ff.to_bytes(c["code"], c["newline"]))
+            tree.write(c["v"], ff.to_bytes(c["variant"], c["newline"]))
+        cb, err = tree.scan()
+        got = ff.entries(cb) if cb is not None else {}
+        for c in cases:
+            inp = {"stream": "file", "language": c["language"], "name": c["name"], "newline": c["newline"], "code": c["code"], "edits": [list(e) for e in c["edits"]]}
+            if err:
+                fails.append({"input": inp, "observed": "scan_path: " + err, "required": "completes", "kind": "pipeline"}); break
+            o, v = got.get(c["o"]), got.get(c["v"])
+            if o is None:
+                continue        # not analysed under this name at all: nothing to compare (counted as trivial)
+            nontrivial += 1 if o[1] else 0
+            want = expected_after(o[1], c["edits"])
+            c["o_ms"] = o[1]
+            if v is None or v[1] != want:
+                fails.append({"input": inp, "observed": "the variant file is not listed by scan_path although the original is" if v is None else [x for x in v[1] if x not in want][:3],
+                              "required": want[:3] if v is None else [x for x in want if x not in v[1]][:3],
+                              "kind": "lexer" if lexer_changed(c["language"], c["code"], c["variant"]) else "pipeline"})
+        # history: the SAME path is edited (original overwritten by its variant) and the tree is scanned again with the
+        # first scan's report as cache, as `codelimit scan` does on every run after the first
+        if cb is not None and not err:
+            report = ff.report_of(cb)
+            for c in cases:
+                tree.write(c["o"], ff.to_bytes(c["variant"], c["newline"]))
+            cb2, err2 = tree.scan(report)
+            got2 = ff.entries(cb2) if cb2 is not None else {}
+            for c in cases:
+                if "o_ms" not in c:
+                    continue
+                inp = {"stream": "file", "history": "edited in place, scanned again with the first report as cache", "language": c["language"], "name": c["name"],
+                       "newline": c["newline"], "code": c["code"], "edits": [list(e) for e in c["edits"]]}
+                if err2:
+                    fails.append({"input": inp, "observed": "scan_path: " + err2, "required": "completes", "kind": "pipeline"}); break
+                want = expected_after(c["o_ms"], c["edits"])
+                v = got2.get(c["o"])
+                if (v is None or v[1] != want) and not lexer_changed(c["language"], c["code"], c["variant"]):
+                    fails.append({"input": inp, "observed": "not listed" if v is None else [x for x in v[1] if x not in want][:3],
+                                  "required": want[:3] if v is None else [x for x in want if x not in v[1]][:3], "kind": "pipeline"})
+    fails.sort(key=lambda f: len(f["input"]["code"]) + 50 * len(f["input"]["edits"]))
+    return 2 * len(cases), nontrivial, fails[:8]
+
+
+# ---- column ladder: insertions next to a line whose code starts beyond column n ----------------------------------------
+
+def wide_jobs(ctx):
+    if getattr(ctx, "_c04wide", None) is None:
+        rnd = ctx.rng("c04wide-edits")
+        ctx._c04wide = [dict(d, edit_seed=rnd.getrandbits(48)) for d in scan_streams.wide_descs(ctx, scan_streams.column_rungs(ctx), ctx.pick(2, 4), "c04wide")]
+    return ctx._c04wide
+
+
+def wide_variants(desc):
+    """-> (language, text, [edits]): ONE insertion at every token-safe boundary within three lines of the widened line
+    (blank line / comment-only line), and two random multi-insertion variants"""
+    import random
+    w = scan_streams.wide_program(desc)
+    if w is None:
+        return desc["language"], None, []
+    text, _, ln = w
+    lang = desc["language"]
+    rnd = random.Random(desc["edit_seed"])
+    b, t = safe_points(lang, text)
+    out = []
+    for k in b:
+        if ln - 3 <= k <= ln + 3:
+            out.append([("blank", k, "")] if rnd.random() < 0.5 else [("comment", k, ladder_comment(lang, rnd))])
+            if rnd.random() < 0.3:
+                out.append([("blank", k, "")] * rnd.randint(2, 4))
+    for _ in range(2):
+        e = make_variant(lang, text, rnd, b, t)[1]
+        if e:
+            out.append(e)
+    return lang, text, out
+
+
+def _wide_work(desc):
+    lang, text, variants = wide_variants(desc)
+    if text is None:
+        return {"n": 0, "functions": 0, "bad": None}
+    if "edits" in desc:
+        variants = [[tuple(e) for e in desc["edits"]]]
+    o = sr.decode_scan(sr.real_scan(lang, text))
+    if o is None:
+        return {"n": 0, "functions": 0, "bad": None}
+    for edits in variants:
+        v = apply_edits(text, edits)
+        r = sr.real_scan(lang, v)
+        d = sr.decode_scan(r)
+        want = expected_after(o[0], edits)
+        got = d[0] if d else r
+        if got != want:
+            return {"n": len(variants), "functions": len(o[0]),
+                    "bad": ([list(e) for e in edits], got if d is None else [x for x in got if x not in want][:3], [x for x in want if d is None or x not in got][:3],
+                            "lexer" if lexer_changed(lang, text, v) else "pipeline")}
+    return {"n": len(variants), "functions": len(o[0]), "bad": None}
+
+
+def wide_failures(ctx, dist=None):
+    jobs = wide_jobs(ctx)
+    fails, n, nontrivial = [], 0, 0
+    for d, res in zip(jobs, scan_streams.heavy_map(_wide_work, jobs)):
+        n += res["n"]
+        nontrivial += res["n"] if res["functions"] else 0
+        if dist is not None:
+            dist.setdefault("column_ladder", {})[str(d["chars"])] = dist.setdefault("column_ladder", {}).get(str(d["chars"]), 0) + res["n"]
+        if res["bad"]:
+            fails.append({"input": dict(d, edits=res["bad"][0]), "observed": res["bad"][1], "required": res["bad"][2], "kind": res["bad"][3]})
+    fails.sort(key=lambda f: f["input"]["chars"])
+    for f in fails[:2]:
+        d = f["input"]
+        small = scan_streams.bisect_size(lambda k, d=d: bool(_wide_work(dict(d, chars=k))["bad"]), 5, d["chars"])
+        bad = _wide_work(dict(d, chars=small))["bad"]
+        if bad:
+            f.update({"input": dict(d, chars=small, found_at_chars=d["chars"]), "observed": bad[1], "required": bad[2], "kind": bad[3]})
+    return n, nontrivial, fails[:4]
+
+
+def _extra_job(tier):
+    """the file stream and the column ladder, run in a worker process next to the in-memory comparison"""
+    import main
+    ctx = main.Ctx(ID, tier)
+    dist = {}
+    fcases = file_variants(ctx)
+    nfile, fnontrivial, ffails = file_failures(fcases)
+    dist["files"] = {"variants": nfile, "with_functions": fnontrivial, "crlf": sum(1 for c in fcases if c["newline"] == "crlf"),
+                     "names": sorted({os.path.splitext(c["name"])[1] or c["name"] for c in fcases})}
+    nwide, wnontrivial, wfails = wide_failures(ctx, dist)
+    return nfile + nwide, fnontrivial + wnontrivial, wfails + ffails, dist
+
+
 def base_cases(ctx):
     out = [(l, t) for (l, t, _) in scan_streams.canonical(ctx, ctx.pick(40, 120), "c04")]
     out += [(l, t) for (l, t) in scan_streams.corpus_cases() if len(t) < 30000]
@@ -271,6 +467,7 @@ def base_cases(ctx):
 
 
 def _correspond_programs(ctx):
+    extra = scan_streams.Heavy(_extra_job, [ctx.tier], 1)
     heavy = scan_streams.Heavy(_ladder_work, sorted(ladder_descs(ctx), key=lambda d: -(d["lines"] + d["insertions"])), 12)
     rnd = ctx.rng("edits")
     base = base_cases(ctx)
@@ -323,9 +520,15 @@ def _correspond_programs(ctx):
     dist["ladder"] = {}
     nladder, lnontrivial, lfails = ladder_failures(ctx, dist, heavy)
     fails = lfails + fails
+    nextra, enontrivial, efails, edist = extra.results()[0]
+    dist.update(edist)
+    fails = efails + fails
+    nladder += nextra
+    lnontrivial += enontrivial
+    dist["foreign_comment_texts"] = sum(1 for (_, _, _, edits) in variants for e in edits if e[0] in ("comment", "trail") and e[2] and any(ch in e[2] for ch in "@[$<`"))
     return {
         "evaluations": len(variants) + nladder, "distinct_nontrivial": len(nontrivial) + lnontrivial,
-        "rule": "size ladder: generated files of 10^2 .. 10^4 lines (many functions; thorough: also one function of 3162 lines) x 10, 10^2, 10^3, 10^4, 10^5 simultaneous insertions (any number at the same point), real analysis before and after, direct oracle only; canonical programs and the vendored corpus x 1..5 simultaneous insertions (blank line, whitespace-only line, comment-only line in every comment style of the language incl. two-line block comments, trailing comment, trailing blanks) at token-safe points computed from the real lexer's token stream (thorough: additionally every safe point of every file of at most 100 lines); oracle: analysis of the variant = analysis of the original with every line shifted by the number of lines inserted above it; non-trivial = distinct variants of files with at least one function",
+        "rule": "comment texts: each language's own styles plus (a third) texts in the syntax of many languages - sigil words, quoted strings, bracketed word groups, foreign comment openers, rulers, string literals of the code under check; FILES: original and variant written under any file name Pygments maps to the language (`*.h`, `*.hh`, `*.mjs`, `BUILD`, ...; a third with CR LF line ends; for names that several lexers claim, half of the comment texts are those that a competing lexer's Pygments content heuristic rates above the resolved lexer's) and observed through Scanner.scan_path(root).files, fresh and - history - after the original was overwritten by its variant, scanned again with the first scan's report as cache (one variant per file with white space at the edges of the file only); column ladder: one code line of a brace-language program pushed right by 10^2 .. 10^5 characters (block comment / blanks; plus n-1, n, n+1, 2n for integers new in the source) x one insertion at every safe boundary within three lines of it + random multi-insertions; size ladder: generated files of 10^2 .. 10^4 lines (many functions; thorough: also one function of 3162 lines) x 10, 10^2, 10^3, 10^4, 10^5 simultaneous insertions (any number at the same point), real analysis before and after, direct oracle only; canonical programs and the vendored corpus x 1..5 simultaneous insertions (blank line, whitespace-only line, comment-only line in every comment style of the language incl. two-line block comments, trailing comment, trailing blanks) at token-safe points computed from the real lexer's token stream (thorough: additionally every safe point of every file of at most 100 lines); oracle: analysis of the variant = analysis of the original with every line shifted by the number of lines inserted above it; non-trivial = distinct variants of files with at least one function",
         "samples": [{"language": l, "edits": e, "original": originals[(l, c)][:80], "variant": r[:80]} for (l, c, v, e), r in list(zip(variants, vr))[5:8]],
         "exhaustive": False, "distribution": dist,
         "disagreements": dis[:50], "oracle_failures": fails[:50],
@@ -354,11 +557,21 @@ def search(ctx, hints):
             fails.append({"input": {"language": lang, "code": code, "edits": [list(e) for e in edits]}, "observed": r[:200], "required": str(want)[:200],
                           "kind": "lexer" if lexer_changed(lang, code, v) else "pipeline"})
     fails.sort(key=lambda f: len(f["input"]["code"]) + 50 * len(f["input"]["edits"]))
-    return fails[:8] + ladder_failures(ctx)[2][:3]
+    return fails[:8] + ladder_failures(ctx)[2][:3] + wide_failures(ctx)[2][:2] + file_failures(file_variants(ctx))[2][:3]
 
 
 def replay(payload):
     inp = payload["input"]
+    if inp.get("stream") == "wide":
+        res = _wide_work(inp)
+        print("%s: generated program with one line pushed right by %d characters (%s), edits %s -> %s" % (inp["language"], inp["chars"], inp.get("kind"), inp.get("edits"), res["bad"] or "unchanged up to the line shift"))
+        return not res["bad"]
+    if inp.get("stream") == "file":
+        c = dict(inp, edits=[tuple(e) for e in inp["edits"]])
+        c["variant"] = apply_edits(c["code"], c["edits"])
+        n, nt, fs = file_failures([c])
+        print("%s file %r, edits %s -> %s" % (inp["language"], inp["name"], c["edits"], fs[0]["observed"] if fs else "unchanged up to the line shift"))
+        return not fs
     if inp.get("stream") == "ladder":
         res = _ladder_work(inp)
         print("%s: generated file of >= %d lines, %d insertions -> %s" % (inp["language"], inp["lines"], inp["insertions"], res["bad"] or "unchanged up to the line shift"))
